@@ -2,9 +2,9 @@ package govc
 
 import (
 	"fmt"
-	"strings"
 	"go/token"
 	"go/types"
+	"strings"
 
 	"golang.org/x/tools/go/ssa"
 )
@@ -206,11 +206,18 @@ func init() {
 		}
 		cls := x.P.Spec.Fields[key]
 		if strings.HasPrefix(cls, "pool ") {
-			tn := strings.TrimSpace(strings.TrimPrefix(cls, "pool "))
+			tn, inv := poolDecl(cls)
 			if ty := x.poolType(tn); ty != nil {
 				v := x.freshValue(ty, "pool.get", n.guard, n.st)
 				if sc, ok := v.(Scalar); ok && sc.T.S == IntS {
 					x.VC.Assume(n.guard, Not(Eq(sc.T, IntLit(0))), "pool-get-nonnil")
+				}
+				if inv != "" {
+					// pool invariant: holds for everything in the pool (obligation at Put, and of New by the declaration)
+					if g, ok := x.poolInv(n, inv, v); ok {
+						x.VC.Assume(n.guard, g, "pool-inv")
+						x.VC.Assumptions["values made by the New function of pool "+key+" satisfy "+inv+" (not checked)"] = true
+					}
 				}
 				return x.makeInterface(n, v, ty, rty)
 			}
@@ -218,7 +225,29 @@ func init() {
 		x.VC.Warnf("sync.Pool.Get on a pool without a declared element type (%s): arbitrary interface value", key)
 		return x.freshValue(rty, "pool.get", n.guard, n.st)
 	})
-	regExtern("(*sync.Pool).Put", "no effect on tracked state", func(x *Exec, fc *funcCtx, n *node, callee *ssa.Function, args []Value, rty types.Type, pos token.Pos) Value {
+	regExtern("(*sync.Pool).Put", "no effect on tracked state; a declared pool invariant is an obligation on the value put", func(x *Exec, fc *funcCtx, n *node, callee *ssa.Function, args []Value, rty types.Type, pos token.Pos) Value {
+		key := ""
+		if call, ok := x.curInstr.(*ssa.Call); ok && len(call.Call.Args) > 0 {
+			key = x.dynKeyAny(call.Call.Args[0])
+		}
+		if cls := x.P.Spec.Fields[key]; strings.HasPrefix(cls, "pool ") && len(args) > 1 {
+			tn, inv := poolDecl(cls)
+			if ty := x.poolType(tn); ty != nil && inv != "" {
+				if iv, ok := args[1].(IfaceV); ok {
+					var v Value
+					if iv.Box != nil {
+						v = iv.Box
+					} else if scalarSort(ty) == IntS {
+						v = Scalar{T: iv.Val, Ty: ty}
+					}
+					if v != nil {
+						if g, ok := x.poolInv(n, inv, v); ok {
+							x.Oblige("pool", "value put into "+key+" satisfies "+inv, fmt.Sprint(pos), pos, n.guard, g, nil)
+						}
+					}
+				}
+			}
+		}
 		return TupleV{}
 	})
 	nop := func(x *Exec, fc *funcCtx, n *node, callee *ssa.Function, args []Value, rty types.Type, pos token.Pos) Value {
@@ -256,6 +285,35 @@ func (x *Exec) dynKeyAny(v ssa.Value) string {
 		}
 	}
 	return ""
+}
+
+// poolDecl splits "pool <type> [inv <pure>]".
+func poolDecl(cls string) (string, string) {
+	tn := strings.TrimSpace(strings.TrimPrefix(cls, "pool "))
+	if k := strings.Index(tn, " inv "); k >= 0 {
+		return strings.TrimSpace(tn[:k]), strings.TrimSpace(tn[k+5:])
+	}
+	return tn, ""
+}
+
+// poolInv evaluates the pure predicate `inv` on a pool element.
+func (x *Exec) poolInv(n *node, inv string, v Value) (*Term, bool) {
+	pf, ok := x.P.Spec.Pures[inv]
+	if !ok || len(pf.Params) != 1 {
+		x.VC.Warnf("pool invariant %s is not a one-argument pure function", inv)
+		return nil, false
+	}
+	env := x.localSpecEnv(n.st, n.guard, false)
+	env.vars = map[string]Value{pf.Params[0].Name: v}
+	g := env.EvalBool(pf.Body)
+	if len(*env.errs) > 0 {
+		for _, er := range *env.errs {
+			x.VC.Warnf("pool invariant %s: %s", inv, er)
+		}
+		*env.errs = nil
+		return nil, false
+	}
+	return g, true
 }
 
 // poolType resolves the element type text of a pool declaration: "*T", "chan *T", "[]byte".
